@@ -143,6 +143,10 @@ mod c19 {
     rv!(c19_rawdoc_012, [0u8, 1, 2]);
     rv!(c19_rawdoc_0120, [0u8, 1, 2, 0]);
     rv!(c19_rawdoc_0011, [0u8, 0, 1, 1]);
+    rv!(c19_rawdoc_000, [0u8, 0, 0]);
+    rv!(c19_rawdoc_011, [0u8, 1, 1]);
+    rv!(c19_rawdoc_0101, [0u8, 1, 0, 1]);
+    rv!(c19_rawdoc_0112, [0u8, 1, 1, 2]);
 
     /// Supported versions are exactly 1..=IDENTITY_VERSION, for every u32.
     #[kani::proof]
